@@ -147,6 +147,43 @@ def unpack_rules(prog, chk, pid):
     sets = [e for e in res.events if e.kind == "setitem" and unsnap(e.d["base"]).op == "ref"]
     okf = len(sets) == 2 and all(unsnap(s.d["value"]).op == "join" for s in sets)
     chk.require(okf, P_("blocks-flushed"), fi.qualname, "blocks[start] = b''.join(cur_block) at every gap and at the end", where, "a contiguous run is stored under its start address when a gap is seen and after the last line", "assembled runs are not stored at both flush points")
+    # the gap test itself: flush exactly when this line's address differs from the end of the previous line
+    okg, whyg = offs is not None, "line address term not found"
+    gap_where = where
+    if okg:
+        endvars = [nm for nm, v in lr.next.items() if nm in lr.init and is_const(lr.init[nm]) and cval(lr.init[nm]) == 0 and not isinstance(cval(lr.init[nm]), bool)
+                   and lin_eq(lin(unsnap(v)), _lin_add(lin(offs), lin(pay.size)))]
+        okg, whyg = len(endvars) == 1, "no loop variable carries `address + payload length` of the previous line (initially 0)"
+    if okg:
+        endv = mk("loopvar", lid, endvars[0])
+        in_loop = [x for x in sets if any(f[0] == "loop" and f[1] == lid for f in x.ctx)]
+        okg, whyg = len(in_loop) == 1, "expected one flush inside the loop"
+        if in_loop:
+            gap_where = in_loop[0].where
+    if okg:
+        ats = []
+        seen_loop = False
+        for f in in_loop[0].ctx:
+            if f[0] == "loop" and f[1] == lid:
+                seen_loop = True
+            elif seen_loop and f[0] == "if":
+                r = rel(f[1], f[2])
+                ats.extend(r[1] if r[0] == "and" else [r])
+        gap = [a for a in ats if a[0] == "rel" and a[1] == "NotEq" and {unsnap(a[2]).uid, unsnap(a[3]).uid} == {endv.uid, offs.uid}]
+        extra = [a for a in ats if a not in gap and not (a[0] == "rel" and a[1] == "Truthy" and unsnap(a[2]).op == "loopvar")]
+        okg = len(gap) == 1 and not extra
+        whyg = "the flush inside the loop is not guarded by exactly `address != end of previous line` (conditions: %s)" % "; ".join(show_rel(a, 5) for a in ats)[:200]
+    chk.require(okg, P_("gap-test"), fi.qualname, "payload_offs != cur_block_end_adr [and cur_block] -> start a new run", gap_where,
+                "a new run is started exactly when a line does not begin where the previous one ended (full-width comparison of absolute addresses)", whyg)
+
+
+def _lin_add(a, b):
+    if a is None or b is None:
+        return None
+    out = dict(a)
+    for k, v in b.items():
+        out[k] = out.get(k, 0) + v
+    return {k: v for k, v in out.items() if v != 0}
 
 
 def convert_rules(prog, chk, pid):
